@@ -360,6 +360,7 @@ def sel_tail_block(inner):
 # (definition name, file under src/, impl-name substring, fn name, selector)
 SITES = [
     ("normal_from_zscore", "normal.rs", "Normal", "from_zscore", sel_tail),
+    ("normal_from_mean_cv_std_dev", "normal.rs", "Normal", "from_mean_cv", sel_assign(["std_dev"])),
     ("cauchy_sample", "cauchy.rs", "Cauchy", "sample", sel_tail),
     ("gumbel_sample", "gumbel.rs", "Gumbel", "sample", sel_tail),
     ("frechet_sample", "frechet.rs", "Frechet", "sample", sel_tail),
